@@ -437,7 +437,7 @@ def part_c(L, tier, log, samples):
 # ------------------------------------------------------------------------------------------------ part D
 
 def part_d(L, tier, log, samples):
-    k = 2 if tier == "quick" else 3
+    k = 3 if tier == "quick" else 4   # three GOAWAYs are needed to see a limit that is not updated (a, b<a, b<c<=a)
     con = [
         (r"^ConnectionInner::poll_control$", c_control_script),
         (r"^ConnectionInner::poll_accept_bi$", lambda ex, st, key, argv, dest_ty, raw: [Case(None, lambda ex, st, a: ex.make_enum(dest_ty, "Pending"))]),
@@ -554,7 +554,7 @@ def check(L, tier, log, samples):
     stats["functions"] = sorted(stats["functions"])
     stats["solver_s"] = round(stats["solver_s"], 2)
     stats["transitions"] = stats["queries"]
-    stats["script_len"] = 2 if tier == "quick" else 3
+    stats["script_len"] = 3 if tier == "quick" else 4
     stats["wall_s"] = round(time.time() - t0, 1)
     return viols, stats
 
@@ -566,6 +566,12 @@ def replay_args(v):
         return ("c08_goaway", ["2", str(n)])
     if v["key"].startswith("c08.accept_line.") and v["key"].endswith(".accepted"):
         return ("c08_goaway", ["1", "1"])
+    if v["key"].startswith("c08.client."):
+        ids = v.get("model", {}).get("ids")
+        if v["key"] == "c08.client.goaway_not_recorded" or not ids:
+            # a limit that is not recorded shows when a later GOAWAY is compared with a stale one
+            return ("c08_client_goaways", ["8,4,8"])
+        return ("c08_client_goaways", [",".join(str(i) for i in ids)])
     if v["key"].startswith("c08.shutdown.") or v["key"].startswith("c08.accept_line.") or v["key"].startswith("c08.reject."):
         # two shutdowns with a decreasing id, then arrivals on every id around the line
         return ("c08_shutdown_sequence", ["2", "0"])
